@@ -30,6 +30,7 @@ THEOREMS = [
     "C01_source_slices",
     "C01_source_rank_tests",
     "C01_source_slices_lists",
+    "C01_source_arguments",
 ]
 RULE = (
     "histories of array checks (dim string, shape, dtype/type flags) inside one jaxtyped context or "
